@@ -99,9 +99,14 @@ MergeUniverse == IF Tier = "quick" THEN MVals0 \cup MObj1 ELSE IF Tier = "deep" 
 \* ---- pairs for generation ----
 PLeaf == {N1, N2, VNull, S(<<120>>)}
 PKeys == {KA, KAA, KSL, KTI}
-PairUniverse == IF Tier = "quick" THEN PLeaf \cup ArrsOver({N1, N2}, 2) \cup ObjsOver({N1, N2}, {KA, KAA, KSL}, 2, TRUE)
+\* a nested object whose members are out of order although the smallest key comes first, the same value in key order, and a neighbour
+NestedUnsorted == {VObj(<< <<KA, VObj(<< <<KA, N1>>, <<KTI, N2>>, <<KB, N1>> >>)>>, <<KB, N2>> >>),
+                   VObj(<< <<KA, VObj(<< <<KA, N1>>, <<KB, N1>>, <<KTI, N2>> >>)>>, <<KB, N2>> >>),
+                   VObj(<< <<KB, N2>>, <<KA, VObj(<< <<KA, N1>>, <<KTI, N1>>, <<KB, N1>> >>)>> >>),
+                   VArr(<< VObj(<< <<KA, N1>>, <<KTI, N2>>, <<KB, N1>> >>), N1 >>)}
+PairUniverse == IF Tier = "quick" THEN PLeaf \cup ArrsOver({N1, N2}, 2) \cup ObjsOver({N1, N2}, {KA, KAA, KSL}, 2, TRUE) \cup NestedUnsorted
                                        \cup {VObj(<< <<KB, N1>>, <<KA, N2>>, <<KAA, N1>> >>), VObj(<< <<KA, N1>>, <<KTI, N2>>, <<KB, N1>> >>)}
-                ELSE PLeaf \cup ArrsOver({N1, N2}, 2) \cup ObjsOver({N1, N2}, PKeys, 2, TRUE)
+                ELSE PLeaf \cup ArrsOver({N1, N2}, 2) \cup ObjsOver({N1, N2}, PKeys, 2, TRUE) \cup NestedUnsorted
                      \cup ArrsOver({N1} \cup ObjsOver({N1, N2}, {KA, KAA}, 1, TRUE), 2)
                      \cup ObjsOver({N1} \cup ObjsOver({N1, N2}, {KA, KAA}, 1, TRUE) \cup ArrsOver({N1}, 1), {KA, KB}, 2, TRUE)
                      \cup {VObj(<< <<KB, N1>>, <<KA, N2>>, <<KAA, N1>> >>), VObj(<< <<KA, N1>>, <<KTI, N2>>, <<KB, N1>> >>)}
